@@ -19,11 +19,12 @@
       `_lognormalisation` and `_new_point` does not use `norm`: no update raises
       for any finite `κ > 0` (`C14_vmf_no_raise`).
   The Veitch widths start from a free input (`initial_std`, per parameter; default
-  `(1-ξ) 0.09 Δ`): `C14_veitch_guard_per_parameter` / `C14_veitch_guard_mixed` state the
-  non-negativity guard parameter by parameter, `C14_veitch_proportional` shows why only
-  widths that are not proportional to the prior widths can exercise it;
-  `C14_veitch_zero_width_witness`: with `target_rate = 1/2` the default widths drop to
-  exactly 0 at the first rejected update (a defect of the code as it is).
+  `(1-ξ) 0.09 Δ`): `C14_veitch_pos` — every width stays strictly positive under every
+  history (the guard tests `≤ 0`, repo fix 36b7cfa); `C14_veitch_guard_per_parameter` /
+  `C14_veitch_guard_mixed` state the guard parameter by parameter, `C14_veitch_proportional`
+  shows why only widths that are not proportional to the prior widths can exercise it;
+  `C14_veitch_zero_width_excluded`: with `target_rate = 1/2` the first rejected update would
+  make the default widths exactly 0 — the guard keeps the old width.
   IEEE arithmetic enters only through `Representable lk := -745 < lk < 709` (the
   range on which `numpy.exp` is positive and finite): `C14_vmf_logkappa_representable`
   proves that the exact `log κ` stays inside it for every history and every
@@ -191,44 +192,75 @@ theorem C14_veitch_bounded {n : Nat} (c : VeitchCfg α n) (hxi : 0 < c.xi ∧ c.
   rw [hcfg, hw] at this
   exact this
 
-/-- Positivity is preserved by every update that does not land exactly on 0 (the guard
-    tests `< 0`).  **Partial**: a width that an update makes exactly 0 stays admissible for
-    numpy (`scale = 0`) but is not positive; this needs an exact cancellation
-    `σ = ξ g Δ/10`. -/
-theorem C14_veitch_pos_partial {n : Nat} (c : VeitchCfg α n) (acc : Bool) (dk : Int)
-    (std : Vector α n) (i : Fin n) (hpos : 0 < std[i])
-    (hne : std[i] + veitchAlpha c.xi acc * c.gain dk * c.deltas[i] / 10 ≠ 0) :
-    0 < (veitchBody c acc dk std)[i] := by
+/-- **Positive widths, every history.**  The guard keeps the old width whenever the new one
+    would be `≤ 0`, so one update maps positive widths to positive widths — for every target
+    rate, gain (any sign: any `adaptation_decay`), prior width and accepted flag ... -/
+theorem C14_veitch_pos_step {n : Nat} (c : VeitchCfg α n) (acc : Bool) (dk : Int)
+    (std : Vector α n) (i : Fin n) (hpos : 0 < std[i]) : 0 < (veitchBody c acc dk std)[i] := by
   rw [veitchBody_getElem]
-  exact veitchComp_pos hpos hne
+  exact veitchComp_pos hpos
+
+/-- ... hence under EVERY accept/reject history (any length, start step, duration, jump
+    interval), from any positive initial widths (`initial_std` per parameter, or the default
+    `C14_veitch_default_std_pos`), every width stays strictly positive.  No hypothesis on the
+    configuration is needed. -/
+theorem C14_veitch_pos {n : Nat} (c : VeitchCfg α n) (hs : List Bool) (a a' : Ad (Vector α n))
+    (h0 : ∀ i : Fin n, 0 < a.num[i])
+    (hr : Ad.run (fun (acc : Bool) dk _ s => some (veitchBody c acc dk s)) id a hs = some a') :
+    ∀ i : Fin n, 0 < a'.num[i] := by
+  refine Ad.run_inv _ id (fun b : Ad (Vector α n) => ∀ i : Fin n, 0 < b.num[i]) ?_ hs a a' h0 hr
+  intro b x b' hb hu
+  rcases (Ad.update_eq_some hu).2 with ⟨_, hbody⟩ | ⟨_, hnum⟩
+  · simp only [Option.some.injEq] at hbody
+    intro i
+    rw [← hbody]
+    exact C14_veitch_pos_step c x b.clock.dkUpdate b.num i (hb i)
+  · rw [hnum]; exact hb
+
+/-- The Veitch update never raises (its body is total). -/
+theorem C14_veitch_never_raises {n : Nat} (c : VeitchCfg α n) (hs : List Bool) :
+    ∀ a : Ad (Vector α n),
+      ∃ a', Ad.run (fun (acc : Bool) dk _ s => some (veitchBody c acc dk s)) id a hs = some a' := by
+  induction hs with
+  | nil => intro a; exact ⟨a, rfl⟩
+  | cons x xs ih =>
+    intro a
+    have hup : ∃ b, a.update (fun dk _ s => some (veitchBody c x dk s)) x = some b := by
+      unfold Ad.update
+      by_cases hu : (a.clock.callJump && a.clock.inWindow) = true
+      · simp [hu]
+      · simp [hu]
+    obtain ⟨b, hb⟩ := hup
+    obtain ⟨a', ha'⟩ := ih b
+    exact ⟨a', by simp [Ad.run, id, hb, ha']⟩
 
 /-- The guard is decided **for every parameter separately**.  The initial widths are a free input
     (`initial_std`: any array, in no fixed proportion to the prior widths), so one update can take
-    one width below zero and leave another positive: width `i` is left unchanged iff ITS OWN new
-    value `σ_i + α g Δ_i/10` would be negative, and is moved by exactly `α g Δ_i/10` otherwise —
+    one width to or below zero and leave another positive: width `i` is left unchanged iff ITS OWN
+    new value `σ_i + α g Δ_i/10` would be `≤ 0`, and is moved by exactly `α g Δ_i/10` otherwise —
     whatever happens to the other widths. -/
 theorem C14_veitch_guard_per_parameter {n : Nat} (c : VeitchCfg α n) (acc : Bool) (dk : Int)
     (std : Vector α n) (i : Fin n) :
-    (std[i] + veitchAlpha c.xi acc * c.gain dk * c.deltas[i] / 10 < 0 →
+    (std[i] + veitchAlpha c.xi acc * c.gain dk * c.deltas[i] / 10 ≤ 0 →
       (veitchBody c acc dk std)[i] = std[i]) ∧
-    (¬ (std[i] + veitchAlpha c.xi acc * c.gain dk * c.deltas[i] / 10 < 0) →
+    (0 < std[i] + veitchAlpha c.xi acc * c.gain dk * c.deltas[i] / 10 →
       (veitchBody c acc dk std)[i] = std[i] + veitchAlpha c.xi acc * c.gain dk * c.deltas[i] / 10) := by
   rw [veitchBody_getElem]
   exact ⟨fun h => veitchComp_guard h, fun h => veitchComp_step h⟩
 
-/-- ... in particular after a rejected step that would make width `i` negative but not width `j`:
-    width `i` keeps its value, width `j` shrinks, and both stay `≥ 0` (no update is skipped or
-    applied for all widths together). -/
+/-- ... in particular after a rejected step that would make width `i` non-positive but not width
+    `j`: width `i` keeps its value, width `j` shrinks, and both stay positive (no update is
+    skipped or applied for all widths together). -/
 theorem C14_veitch_guard_mixed {n : Nat} (c : VeitchCfg α n) (hxi : 0 < c.xi) (dk : Int)
-    (hg : 0 < c.gain dk) (std : Vector α n) (i j : Fin n) (hdj : 0 < c.deltas[j]) (hsi : 0 ≤ std[i])
-    (hi : std[i] + -c.xi * c.gain dk * c.deltas[i] / 10 < 0)
-    (hj : 0 ≤ std[j] + -c.xi * c.gain dk * c.deltas[j] / 10) :
-    (veitchBody c false dk std)[i] = std[i] ∧ 0 ≤ (veitchBody c false dk std)[i] ∧
-    (veitchBody c false dk std)[j] < std[j] ∧ 0 ≤ (veitchBody c false dk std)[j] := by
+    (hg : 0 < c.gain dk) (std : Vector α n) (i j : Fin n) (hdj : 0 < c.deltas[j]) (hsi : 0 < std[i])
+    (hi : std[i] + -c.xi * c.gain dk * c.deltas[i] / 10 ≤ 0)
+    (hj : 0 < std[j] + -c.xi * c.gain dk * c.deltas[j] / 10) :
+    (veitchBody c false dk std)[i] = std[i] ∧ 0 < (veitchBody c false dk std)[i] ∧
+    (veitchBody c false dk std)[j] < std[j] ∧ 0 < (veitchBody c false dk std)[j] := by
   have hi' := (C14_veitch_guard_per_parameter c false dk std i).1
     (by simpa [veitchAlpha] using hi)
   have hj' := (C14_veitch_guard_per_parameter c false dk std j).2
-    (by simpa [veitchAlpha] using not_lt.mpr hj)
+    (by simpa [veitchAlpha] using hj)
   simp only [veitchAlpha, Bool.false_eq_true, if_false] at hj'
   refine ⟨hi', by rw [hi']; exact hsi, ?_, by rw [hj']; exact hj⟩
   rw [veitchBody_getElem]
@@ -250,50 +282,52 @@ theorem C14_veitch_default_std_pos {n : Nat} (xi : α) (hxi : xi < 1) (deltas : 
 theorem C14_veitch_proportional {n : Nat} (c : VeitchCfg α n) (hd : ∀ i : Fin n, 0 < c.deltas[i])
     (acc : Bool) (dk : Int) (std : Vector α n) (t : α) (ht : ∀ i : Fin n, std[i] = t * c.deltas[i]) :
     ∀ i : Fin n, (veitchBody c acc dk std)[i] =
-      (if t + veitchAlpha c.xi acc * c.gain dk / 10 < 0 then t
+      (if t + veitchAlpha c.xi acc * c.gain dk / 10 ≤ 0 then t
        else t + veitchAlpha c.xi acc * c.gain dk / 10) * c.deltas[i] := by
   intro i
   rw [veitchBody_getElem, veitchComp_eq, ht i]
   have e : t * c.deltas[i] + veitchAlpha c.xi acc * c.gain dk * c.deltas[i] / 10
       = (t + veitchAlpha c.xi acc * c.gain dk / 10) * c.deltas[i] := by ring
   rw [e]
-  by_cases h : t + veitchAlpha c.xi acc * c.gain dk / 10 < 0
-  · rw [if_pos (mul_neg_of_neg_of_pos h (hd i)), if_pos h]
-  · rw [if_neg (not_lt.mpr (mul_nonneg (not_lt.mp h) (hd i).le)), if_neg h]
+  by_cases h : t + veitchAlpha c.xi acc * c.gain dk / 10 ≤ 0
+  · rw [if_pos (mul_nonpos_of_nonpos_of_nonneg h (hd i).le), if_pos h]
+  · rw [if_neg (not_le.mpr (mul_pos (not_le.mp h) (hd i))), if_neg h]
 
 theorem C14_veitch_default_proportional {n : Nat} (xi : α) (deltas : Vector α n) (i : Fin n) :
     (veitchDefaultStd xi deltas)[i] = ((1 - xi) * ((10 - 1) / (10 * 10))) * deltas[i] :=
   veitchDefaultStd_getElem xi deltas i
 
-/-- **The width can reach exactly 0** (the case `C14_veitch_pos_partial` leaves open is not a
-    coincidence of rounding).  With `target_rate = 1/2` and the default initial widths
-    `σ₀ = (1-ξ) 0.09 Δ = 0.045 Δ`, the first update of the window (`dk = 1`, gain
-    `1^-β - 0.1 = 0.9` for EVERY decay) after a rejected step subtracts `ξ 0.9 Δ/10 = 0.045 Δ`:
-    every width becomes exactly 0 — the guard tests `< 0`, so 0 is kept.  numpy accepts
-    `scale = 0` and returns the current point: the non-successive discrete proposals then redraw
-    for ever (`deltax != 0` never holds), the bounded normal's `truncnorm.logpdf` is NaN (the
-    chain raises `NaN acceptance`), the unbounded / angular normal propose the current point.
-    More generally whenever `σ_i = ξ g Δ_i/10` (second statement). -/
-theorem C14_veitch_zero_width_witness {n : Nat} (c : VeitchCfg α n) (hxi : c.xi = 1 / 2)
-    (hg : c.gain 1 = 9 / 10) (i : Fin n) :
-    (veitchBody c false 1 (veitchDefaultStd c.xi c.deltas))[i] = 0 := by
-  rw [veitchBody_getElem, veitchComp_eq, veitchDefaultStd_getElem]
-  have e : (1 - c.xi) * ((10 - 1) / (10 * 10)) * c.deltas[i]
+/-- **The exact-zero candidate is excluded by the guard** (repo fix 36b7cfa).  With
+    `target_rate = 1/2` and the default initial widths `σ₀ = (1-ξ) 0.09 Δ = 0.045 Δ`, the first
+    update of the window (`dk = 1`, gain `1^-β - 0.1 = 0.9` for EVERY decay,
+    `C14_veitch_gain_one`) after a rejected step proposes the new width
+    `σ₀ - ξ 0.9 Δ/10 = 0` — exactly zero, not a coincidence of rounding, and not `< 0` (a guard
+    testing only `< 0` would install it: numpy then returns the current point for `scale = 0`,
+    which the non-successive discrete proposals redraw for ever and for which the bounded
+    normal's density is NaN).  The guard tests `≤ 0`: the same inputs keep the old, positive
+    width. -/
+theorem C14_veitch_zero_width_excluded {n : Nat} (c : VeitchCfg α n) (hxi : c.xi = 1 / 2)
+    (hg : c.gain 1 = 9 / 10) (hd : ∀ i : Fin n, 0 < c.deltas[i]) (i : Fin n) :
+    (veitchDefaultStd c.xi c.deltas)[i] + veitchAlpha c.xi false * c.gain 1 * c.deltas[i] / 10 = 0 ∧
+    (veitchBody c false 1 (veitchDefaultStd c.xi c.deltas))[i] = (veitchDefaultStd c.xi c.deltas)[i] ∧
+    0 < (veitchBody c false 1 (veitchDefaultStd c.xi c.deltas))[i] := by
+  have e : (veitchDefaultStd c.xi c.deltas)[i]
       + veitchAlpha c.xi false * c.gain 1 * c.deltas[i] / 10 = 0 := by
+    rw [veitchDefaultStd_getElem]
     simp only [veitchAlpha, Bool.false_eq_true, if_false]
     rw [hxi, hg]; ring
-  rw [e]
-  simp
+  have hk := (C14_veitch_guard_per_parameter c false 1 (veitchDefaultStd c.xi c.deltas) i).1 (le_of_eq e)
+  refine ⟨e, hk, ?_⟩
+  rw [hk]
+  exact C14_veitch_default_std_pos c.xi (by rw [hxi]; norm_num) c.deltas hd i
 
-theorem C14_veitch_zero_width_exact {n : Nat} (c : VeitchCfg α n) (dk : Int) (std : Vector α n)
-    (i : Fin n) (h : std[i] = c.xi * c.gain dk * c.deltas[i] / 10) :
-    (veitchBody c false dk std)[i] = 0 := by
-  rw [veitchBody_getElem, veitchComp_eq]
-  have e : std[i] + veitchAlpha c.xi false * c.gain dk * c.deltas[i] / 10 = 0 := by
-    simp only [veitchAlpha, Bool.false_eq_true, if_false]
-    rw [h]; ring
-  rw [e]
-  simp
+/-- More generally: whenever `σ_i = ξ g Δ_i/10` exactly, a rejected update keeps `σ_i`. -/
+theorem C14_veitch_zero_width_excluded_exact {n : Nat} (c : VeitchCfg α n) (dk : Int)
+    (std : Vector α n) (i : Fin n) (h : std[i] = c.xi * c.gain dk * c.deltas[i] / 10) :
+    (veitchBody c false dk std)[i] = std[i] := by
+  refine (C14_veitch_guard_per_parameter c false dk std i).1 (le_of_eq ?_)
+  simp only [veitchAlpha, Bool.false_eq_true, if_false]
+  rw [h]; ring
 
 /-! ## Andrieu–Thoms, eigenvector -/
 
@@ -688,7 +722,7 @@ theorem C14_vmf_logkappa_representable (T : ℕ) (hT : T ≤ 1000000) (xi : ℝ)
   exact ⟨⟨by linarith [hbound.1], by linarith [hbound.2]⟩, abs_le.mpr hbound⟩
 
 /-- The first gain of the Veitch window is `0.9` whatever the decay (hypothesis `hg` of
-    `C14_veitch_zero_width_witness` at `α = ℝ`). -/
+    `C14_veitch_zero_width_excluded` at `α = ℝ`). -/
 theorem C14_veitch_gain_one (β : ℝ) : gainV β 1 = 9 / 10 := gainV_one β
 
 /-- The Veitch gain is at most `0.9` (for any decay `≥ 0`): with `C14_veitch_bounded`,
@@ -829,20 +863,22 @@ example : (0 < vq.xi ∧ vq.xi < 1) ∧ (∀ i : Fin 2, 0 < vq.deltas[i]) ∧ Ve
     update (`g = 9/10`) would take width 0 below zero and not width 1 — the hypotheses of
     `C14_veitch_guard_mixed` are met -/
 example : (0 < vq.xi) ∧ (0 < vq.gain 1) ∧ (0 < vq.deltas[(1 : Fin 2)]) ∧
-    ((#v[1 / 1000, 2 / 5] : Vector Rat 2)[(0 : Fin 2)] + -vq.xi * vq.gain 1 * vq.deltas[(0 : Fin 2)] / 10 < 0) ∧
-    (0 ≤ (#v[1 / 1000, 2 / 5] : Vector Rat 2)[(1 : Fin 2)] + -vq.xi * vq.gain 1 * vq.deltas[(1 : Fin 2)] / 10) := by
+    ((#v[1 / 1000, 2 / 5] : Vector Rat 2)[(0 : Fin 2)] + -vq.xi * vq.gain 1 * vq.deltas[(0 : Fin 2)] / 10 ≤ 0) ∧
+    (0 < (#v[1 / 1000, 2 / 5] : Vector Rat 2)[(1 : Fin 2)] + -vq.xi * vq.gain 1 * vq.deltas[(1 : Fin 2)] / 10) := by
   refine ⟨by norm_num [vq], by norm_num [vq], by simp [vq], ?_, ?_⟩
-  · show (1 / 1000 : Rat) + -(117 / 500) * (1 / ((1 : Int) : Rat) - 1 / 10) * 2 / 10 < 0
+  · show (1 / 1000 : Rat) + -(117 / 500) * (1 / ((1 : Int) : Rat) - 1 / 10) * 2 / 10 ≤ 0
     norm_num
-  · show (0 : Rat) ≤ 2 / 5 + -(117 / 500) * (1 / ((1 : Int) : Rat) - 1 / 10) * 4 / 10
+  · show (0 : Rat) < 2 / 5 + -(117 / 500) * (1 / ((1 : Int) : Rat) - 1 / 10) * 4 / 10
     norm_num
-/-- a configuration as `C14_veitch_zero_width_witness` wants it (target rate 1/2, gain table
-    `1/d - 1/10`): both default widths drop to 0 -/
+/-- a configuration as `C14_veitch_zero_width_excluded` wants it (target rate 1/2, gain table
+    `1/d - 1/10`, positive prior widths): both default widths are kept -/
 def vqHalf : VeitchCfg Rat 2 := { vq with xi := 1 / 2 }
-example : vqHalf.xi = 1 / 2 ∧ vqHalf.gain 1 = 9 / 10 ∧
-    ∀ i : Fin 2, (veitchBody vqHalf false 1 (veitchDefaultStd vqHalf.xi vqHalf.deltas))[i] = 0 := by
+example : vqHalf.xi = 1 / 2 ∧ vqHalf.gain 1 = 9 / 10 ∧ (∀ i : Fin 2, 0 < vqHalf.deltas[i]) ∧
+    ∀ i : Fin 2, (veitchBody vqHalf false 1 (veitchDefaultStd vqHalf.xi vqHalf.deltas))[i]
+      = (veitchDefaultStd vqHalf.xi vqHalf.deltas)[i] := by
   have hg : vqHalf.gain 1 = 9 / 10 := by norm_num [vqHalf, vq]
-  exact ⟨rfl, hg, fun i => C14_veitch_zero_width_witness vqHalf rfl hg i⟩
+  have hd : ∀ i : Fin 2, 0 < vqHalf.deltas[i] := fun i => by fin_cases i <;> simp [vqHalf, vq]
+  exact ⟨rfl, hg, hd, fun i => (C14_veitch_zero_width_excluded vqHalf rfl hg hd i).2.1⟩
 /-- a positive semidefinite start (the identity, 2×2) -/
 example : PSD (α := Rat) (#v[#v[1, 0], #v[0, 1]] : Mat Rat 2) := by
   intro v
